@@ -14,7 +14,7 @@ fn exact(n: u64, d: u64, q: u64, r: u64) -> bool {
 
 // ---------------------------------------------------------------- kernels
 
-//@ prop=C02,C11 tier=quick profile=k8 funcs="div2by1,Reciprocal::new,reciprocal(k8 definition)" bound="u8 words: every (u1,u0,d) with d normalised and u1<d" free_bits=23
+//@ prop=C02,C11,C14,C07,C20,C17 tier=quick profile=k8 funcs="div2by1,Reciprocal::new,reciprocal(k8 definition)" bound="u8 words: every (u1,u0,d) with d normalised and u1<d" free_bits=23 core=C14,C07,C17
 #[kani::proof]
 fn c02_k8_div2by1_all() {
     let d: Word = kani::any();
@@ -55,14 +55,14 @@ macro_rules! div3by2_shape {
         }
     };
 }
-//@ name=c02_k8_div3by2_a prop=C02,C11 tier=quick profile=k8 funcs="div3by2,div2by1" bound="u8 words: v1 all normalised values, v0=S(3), u2=S(3), u1=S(3), u0=S(2), under the documented precondition u/v<=MAX" free_bits=22
+//@ name=c02_k8_div3by2_a prop=C02,C11,C14,C07,C20,C17 tier=quick profile=k8 funcs="div3by2,div2by1" bound="u8 words: v1 all normalised values, v0=S(3), u2=S(3), u1=S(3), u0=S(2), under the documented precondition u/v<=MAX" free_bits=22 core=C14,C07,C20
 div3by2_shape!(c02_k8_div3by2_a, 3, 3, 2, 3);
 //@ name=c02_k8_div3by2_b prop=C02,C11 tier=thorough profile=k8 funcs="div3by2,div2by1" bound="u8 words: v1 all normalised, v0 free, u2=S(2), u1=S(2), u0=S(2)" free_bits=24
 div3by2_shape!(c02_k8_div3by2_b, 2, 2, 2, 8);
 //@ name=c02_k8_div3by2_c prop=C02,C11 tier=thorough profile=k8 funcs="div3by2,div2by1" bound="u8 words: v1 all normalised, v0=S(1), u2 free, u1=S(2), u0=S(1)" free_bits=23
 div3by2_shape!(c02_k8_div3by2_c, 8, 2, 1, 1);
 
-//@ prop=C02,C11 tier=quick profile=k8 funcs="div3by2" bound="u8 words: q_maxed path only (u2 == v1), v1 all normalised, u1 free, v0 free, u0=S(2)" free_bits=26
+//@ prop=C02,C11,C14,C20 tier=quick profile=k8 funcs="div3by2" bound="u8 words: q_maxed path only (u2 == v1), v1 all normalised, u1 free, v0 free, u0=S(2)" free_bits=26 core=C14
 #[kani::proof]
 #[kani::unwind(4)]
 fn c02_k8_div3by2_qmaxed() {
@@ -228,11 +228,11 @@ macro_rules! div_constructive {
     };
 }
 
-//@ name=c02_k8_uint3_constructive_d3 prop=C02,C11,C15 tier=quick profile=k8 funcs="Uint::div_rem,Uint::div_rem_vartime,div3by2,div2by1" bound="u8 words, Uint<3>: d=[S(2),S(2),free] (3-limb divisor, every top-limb value), n=q*d+r with q in {0..3,12..15}, r within 4 of 0 or d" free_bits=18 core=C15
+//@ name=c02_k8_uint3_constructive_d3 prop=C02,C11,C15,C20,C14 tier=quick profile=k8 funcs="Uint::div_rem,Uint::div_rem_vartime,div3by2,div2by1" bound="u8 words, Uint<3>: d=[S(2),S(2),free] (3-limb divisor, every top-limb value), n=q*d+r with q in {0..3,12..15}, r within 4 of 0 or d" free_bits=18 core=C15,C20,C14
 div_constructive!(c02_k8_uint3_constructive_d3, 3, Uint::<3>::new([Limb(shaped_word(2)), Limb(shaped_word(2)), Limb(kani::any())]), 4, 2);
 //@ name=c02_k8_uint3_constructive_d2 prop=C02,C11,C15 tier=quick profile=k8 funcs="Uint::div_rem,Uint::div_rem_vartime,div3by2,div2by1" bound="u8 words, Uint<3>: d=[S(2),free,0] (2-limb divisor), n=q*d+r with q in {0..3,508..511}, r within 4 of 0 or d" free_bits=18
 div_constructive!(c02_k8_uint3_constructive_d2, 3, Uint::<3>::new([Limb(shaped_word(2)), Limb(kani::any()), Limb(0)]), 9, 2);
-//@ name=c02_k8_uint4_constructive_d3 prop=C02,C11,C15 tier=quick profile=k8 funcs="Uint::div_rem,Uint::div_rem_vartime,div3by2,div2by1" bound="u8 words, Uint<4>: d=[S(1),S(1),free,0] (3-limb divisor in 4-limb width), n=q*d+r with q in {0..3,508..511}, r within 2 of 0 or d" free_bits=15
+//@ name=c02_k8_uint4_constructive_d3 prop=C02,C11,C15,C20,C14 tier=quick profile=k8 funcs="Uint::div_rem,Uint::div_rem_vartime,div3by2,div2by1" bound="u8 words, Uint<4>: d=[S(1),S(1),free,0] (3-limb divisor in 4-limb width), n=q*d+r with q in {0..3,508..511}, r within 2 of 0 or d" free_bits=15 core=C20,C14
 div_constructive!(c02_k8_uint4_constructive_d3, 4, Uint::<4>::new([Limb(shaped_word(1)), Limb(shaped_word(1)), Limb(kani::any()), Limb(0)]), 9, 1);
 //@ name=c02_k8_uint4_constructive_d4 prop=C02,C11,C15 tier=thorough profile=k8 funcs="Uint::div_rem,Uint::div_rem_vartime,div3by2,div2by1" bound="u8 words, Uint<4>: d=[S(1),S(1),S(1),free], n=q*d+r with q in {0..3,12..15}, r within 2 of 0 or d" free_bits=17
 div_constructive!(c02_k8_uint4_constructive_d4, 4, Uint::<4>::new([Limb(shaped_word(1)), Limb(shaped_word(1)), Limb(shaped_word(1)), Limb(kani::any())]), 4, 1);
